@@ -78,6 +78,8 @@ func ScenarioByName(name string) *Scenario {
 		sc = LeaveSilent(arg(1), arg(2), arg(3))
 	case "dups":
 		sc = Dups(arg(1), arg(2))
+	case "bigtx":
+		sc = BigTx(arg(1), arg(2), arg(3))
 	case "burst":
 		sc = Burst(arg(1), arg(2), arg(3), arg(4))
 	case "rejoin":
